@@ -172,9 +172,14 @@ let istep_of s = match split_colon s with
 let rec rep n x = if n <= 0 then [] else x :: rep (n - 1) x
 let id_next = INext ((fun p -> p), (fun i -> i))
 let id_back = INextBack ((fun p -> p), (fun i -> i))
+(* K may be as large as usize::MAX: an iterator over at most [cur_size] elements is
+   exhausted (and, being fused, unchanged) after cur_size + 1 calls *)
+let small_k k = match int_of_string_opt k with
+  | Some k when k >= 0 && k <= !cur_size + 1 -> k
+  | _ -> !cur_size + 1
 let expand_step s = match split_colon s with
-  | ["nth"; k] -> let k = int_of_string k in (rep (k + 1) id_next, rep k false @ [true])
-  | ["nthb"; k] -> let k = int_of_string k in (rep (k + 1) id_back, rep k false @ [true])
+  | ["nth"; k] -> let k = small_k k in (rep (k + 1) id_next, rep k false @ [true])
+  | ["nthb"; k] -> let k = small_k k in (rep (k + 1) id_back, rep k false @ [true])
   | _ -> ([istep_of s], [true])
 let script toks = match toks with
   | a :: e :: n :: rest ->
